@@ -1,4 +1,4 @@
--- PINNED by bin/pin_tables: copy of Gen/Parse.lean as generated from /repo at 36172fa — regenerate, do not edit
+-- PINNED by bin/pin_tables: copy of Gen/Parse.lean as generated from /repo at dee58c0 — regenerate, do not edit
 namespace Ggql.Pinned
 def sdlEmptyTokenSpins : Bool := false
 def exeVarTypeOptional : Bool := false
